@@ -207,6 +207,13 @@ func zzApplySetter(pk ControlPacket, a *zzAbs, k int, l int, pre string) bool {
 			w.SetMessageExpiryInterval(me)
 			w.SetContentType(string(ct))
 			p.SetWill(w)
+			if zzBool(g.pre + "ra") {
+				// the same message is changed and attached again: the second
+				// SetWill wins, for the accessors and for the frame
+				pl = g.bin("wr")
+				w.SetPayload(pl)
+				p.SetWill(w)
+			}
 			delay := zzPU(a.willProps, 0x18)
 			a.hasWill = true
 			a.willDup = wd
